@@ -62,6 +62,21 @@ def carr(a):
     return a
 
 
+def flat(a):
+    """All entries of an array or BlockArray as one flat numpy vector."""
+    from scico.numpy import BlockArray
+    if isinstance(a, BlockArray):
+        return np.concatenate([np.asarray(b).ravel() for b in a])
+    return np.asarray(a).ravel()
+
+
+def to_snp(spec_arr, cplx, block=False):
+    import scico.numpy as snp
+    if block:
+        return snp.blockarray([to_np(b, cplx) for b in spec_arr])
+    return snp.array(to_np(spec_arr, cplx))
+
+
 def to_np(spec_arr, cplx):
     a = np.array(spec_arr, dtype=np.float64)
     if cplx:
@@ -74,10 +89,14 @@ def build_problem(spec):
     from scico import functional, linop, loss
     cplx = spec["complex"]
     kind = spec["kind"]
+    block = bool(spec.get("block"))
     if kind == "lsq":
         A = to_np(spec["A"], cplx)
         y = to_np(spec["y"], cplx)
-        f = loss.SquaredL2Loss(y=snp.array(y), A=linop.MatrixOperator(snp.array(A)))
+        cols = y.shape[1] if y.ndim == 2 else 0          # 2-D iterates: A acts on the columns
+        f = loss.SquaredL2Loss(y=snp.array(y), A=linop.MatrixOperator(snp.array(A), input_cols=cols))
+    elif kind == "lsqdiag":                                # any shape, also BlockArray iterates
+        f = loss.SquaredL2Loss(y=to_snp(spec["y"], cplx, block), A=linop.Diagonal(to_snp(spec["d"], cplx, block)))
     else:
         d = snp.array(np.array(spec["d"], dtype=np.float64))
 
@@ -106,7 +125,7 @@ def build_problem(spec):
         g = gs[1] * functional.SquaredL2Norm()
     else:
         raise ValueError(gs)
-    x0 = snp.array(to_np(spec["x0"], cplx))
+    x0 = to_snp(spec["x0"], cplx, block)
     return f, g, x0
 
 
@@ -235,9 +254,9 @@ def instrument(s, calls):
             try:
                 L = upd(v)
                 c["raised"] = None
-            except UnboundLocalError as e:
+            except Exception as e:       # UnboundLocalError (maxiter = 0) is modelled; anything else is reported
                 L = None
-                c["raised"] = "UnboundLocalError"
+                c["raised"] = type(e).__name__
         finally:
             aux.snp = real_snp
             st["active"] = False
@@ -249,7 +268,7 @@ def instrument(s, calls):
                  Tkn=getattr(ss, "Tk", None), Zrbn=getattr(ss, "Zrb", None), Z=getattr(ss, "Z", None))
         calls.append(c)
         if L is None:
-            raise UnboundLocalError("maxiter = 0")
+            raise UnboundLocalError(c["raised"])
         return L
     ss.update = update
     return st
@@ -268,7 +287,7 @@ def run_traj(spec):
             s.step()
             err = None
         except UnboundLocalError:
-            err = "UnboundLocalError"
+            err = calls[-1].get("raised") if len(calls) == n0 + 1 else "UnboundLocalError"
         if len(calls) != n0 + 1:
             raise Broken("step() did not call step_size.update exactly once", str(spec))
         c = calls[-1]
@@ -292,6 +311,13 @@ def cvec(rng, n, cplx, bits=1, lo=-3, hi=3):
     return [dy(rng, bits, lo, hi) for _ in range(n)]
 
 
+def rarr(rng, shape, cplx, bits=1, lo=-3, hi=3):
+    """Nested list of dyadics of the given shape (complex: innermost pairs)."""
+    if len(shape) == 1:
+        return cvec(rng, shape[0], cplx, bits, lo, hi)
+    return [rarr(rng, shape[1:], cplx, bits, lo, hi) for _ in range(shape[0])]
+
+
 def gen_policy(rng):
     r = rng.random()
     if r < 0.25:
@@ -306,17 +332,28 @@ def gen_policy(rng):
 
 def gen_spec(rng, steps):
     cplx = rng.random() < 0.35
-    kind = rng.choice(["lsq", "lsq", "lsq", "diagquad", "bilinear", "quartic"])
+    kind = rng.choice(["lsq", "lsq", "lsq", "diagquad", "bilinear", "quartic", "lsqdiag"])
     n = rng.randint(1, 4) if kind != "bilinear" else rng.randint(2, 4)
+    # image-shaped (2-D) and 3-D iterates for a third of the problems
+    shape = (n,)
+    if rng.random() < 0.35:
+        shape = rng.choice([(2, 2), (2, 3), (3, 2), (2, 2, 2)]) if kind != "lsq" else (n, rng.choice([2, 3]))
     spec = {"kind": kind, "complex": cplx, "cls": rng.choice(["PGM", "APGM"]),
             "policy": gen_policy(rng), "steps": steps,
             "L0": rng.choice([0.25, 0.5, 1.0, 2.0, 4.0, 8.0, 16.0, 3.0])}
     if kind == "lsq":
         m = rng.randint(1, 4)
         spec["A"] = [cvec(rng, n, cplx, 1, -2, 2) for _ in range(m)]
-        spec["y"] = cvec(rng, m, cplx)
+        spec["y"] = rarr(rng, (m,) + tuple(shape[1:]), cplx)
+    elif kind == "lsqdiag":
+        spec["d"] = rarr(rng, shape, cplx, 1, -2, 2)
+        spec["y"] = rarr(rng, shape, cplx)
     else:
-        spec["d"] = [rng.choice([-2.0, -1.0, -0.5, 0.5, 1.0, 2.0, 1.0, -1.0]) for _ in range(n)]
+        def dval(sh):
+            if len(sh) == 1:
+                return [rng.choice([-2.0, -1.0, -0.5, 0.5, 1.0, 2.0, 1.0, -1.0]) for _ in range(sh[0])]
+            return [dval(sh[1:]) for _ in range(sh[0])]
+        spec["d"] = dval(shape)
         if kind == "quartic":
             spec["L0"] = rng.choice([4.0, 8.0, 16.0])
     g = rng.random()
@@ -328,18 +365,52 @@ def gen_spec(rng, steps):
         spec["g"] = ["nonneg"]
     else:
         spec["g"] = ["sql2", rng.choice([0.5, 1.0])]
-    spec["x0"] = cvec(rng, n, cplx) if kind != "quartic" else cvec(rng, n, cplx, 2, -1, 1)
+    spec["x0"] = rarr(rng, shape, cplx) if kind != "quartic" else rarr(rng, shape, cplx, 2, -1, 1)
     r = rng.random()
     if kind == "lsq" and r < 0.15:
         # start at a stationary point: repeated iterates, dx = dg = 0
         A = to_np(spec["A"], cplx)
         x0 = to_np(spec["x0"], cplx)
         yy = A @ x0
-        spec["y"] = [[float(t.real), float(t.imag)] for t in yy] if cplx else [float(t) for t in yy]
+
+        def enc(a):
+            if a.ndim == 1:
+                return [[float(t.real), float(t.imag)] for t in a] if cplx else [float(t) for t in a]
+            return [enc(r_) for r_ in a]
+        spec["y"] = enc(yy)
         spec["g"] = ["zero"]
     elif r < 0.25:
-        spec["x0"] = cvec(rng, n, cplx, 0, 0, 0)     # x0 = 0
+        spec["x0"] = rarr(rng, shape, cplx, 0, 0, 0)     # x0 = 0
     return spec
+
+
+def shaped_specs(steps):
+    """2-D (image-shaped), 3-D and BlockArray iterates whose update differences have rank > 1:
+    the quadratic model must sum over ALL entries.  Line searches with a budget that needs a few
+    rejections; BB policies on 2-D iterates."""
+    out = []
+    for cls in ("PGM", "APGM"):
+        for pol in (["ls", 2.0, 6], ["rls", 0.5, 2.0, 6]):
+            out.append({"kind": "lsq", "complex": False, "cls": cls, "policy": pol, "steps": steps, "L0": 0.5,
+                        "A": [[1.0, 0.5], [0.0, 2.0], [1.0, 1.0]],
+                        "y": [[1.0, 2.0, -1.0], [2.0, 0.5, 1.0], [0.5, -1.0, 3.0]], "g": ["l1", 0.25],
+                        "x0": [[0.0, 0.0, 0.0], [0.0, 0.0, 0.0]]})
+            out.append({"kind": "lsqdiag", "complex": True, "cls": cls, "policy": pol, "steps": steps, "L0": 0.25,
+                        "d": [[[1.0, 0.5], [2.0, 0.0], [0.0, -1.5]], [[1.0, 1.0], [0.5, -0.5], [2.0, 1.0]]],
+                        "y": [[[1.0, 0.0], [0.0, 2.0], [1.0, 1.0]], [[-1.0, 0.5], [2.0, 0.0], [0.5, 0.5]]],
+                        "g": ["zero"], "x0": [[[0.0, 0.0]] * 3, [[0.0, 0.0]] * 3]})
+            out.append({"kind": "quartic", "complex": False, "cls": cls, "policy": pol, "steps": steps, "L0": 0.5,
+                        "d": [[[1.0, 2.0], [0.5, 1.0]], [[1.0, 1.0], [2.0, 0.5]]], "g": ["zero"],
+                        "x0": [[[1.5, -1.0], [0.5, 2.0]], [[-1.5, 1.0], [1.0, -0.5]]]})
+            out.append({"kind": "lsqdiag", "complex": False, "block": True, "cls": cls, "policy": pol, "steps": steps,
+                        "L0": 0.25, "d": [[1.0, 2.0], [[1.5, -1.0], [0.5, 2.0]]],
+                        "y": [[1.0, -2.0], [[2.0, 1.0], [-1.0, 0.5]]], "g": ["l1", 0.125],
+                        "x0": [[0.0, 0.0], [[0.0, 0.0], [0.0, 0.0]]]})
+        for pol in (["bb"], ["abb", 0.5]):
+            out.append({"kind": "lsq", "complex": False, "cls": cls, "policy": pol, "steps": steps, "L0": 8.0,
+                        "A": [[1.0, 0.5], [0.0, 2.0], [1.0, 1.0]],
+                        "y": [[1.0, 2.0], [2.0, 0.5], [0.5, -1.0]], "g": ["zero"], "x0": [[0.0, 0.0], [0.0, 0.0]]})
+    return out
 
 
 def fixed_specs(steps):
@@ -433,7 +504,7 @@ def check_call(ctx, spec, c, s, items, report=True):
                              ("PGM.step", "policy argument / new x differs from PGM.step / AcceleratedPGM.step model",
                               brief(spec, c, arg=arg, newx=newx))))
     if c.get("err") or c.get("raised"):
-        if kind == "rls":
+        if kind == "rls" and (c.get("raised") or c.get("err")) == "UnboundLocalError" and pol[3] == 0:
             items["rls"].append((rls_item(pol, c, None), ("RobustLineSearchStepSize.update",
                                                            "update differs from the model", brief(spec, c))))
         else:
@@ -549,18 +620,35 @@ def check_call(ctx, spec, c, s, items, report=True):
     tabl = coq_list([f"({qc(a)}, {qc(b)}, {qc(d)})" for a, b, d in tab])
     # quadratic model and candidates are what the documentation says (numpy recomputation)
     f0, g0 = s.f._f, s.g
+    own = []          # the harness's own evaluation of the documented test f(z) <= fhat_L(z, y)
     for (Lj, y, z), fzj, fqj in zip(trials, c["fz"], c["fq"]):
-        yn, zn = np.asarray(y), np.asarray(z)
-        gy = np.asarray(f0.grad(y))
-        want_fq = float(f0(y)) + float(np.sum(np.real(np.conj(gy) * (zn - yn)))) + 0.5 * Lj * float(np.sum(np.abs(zn - yn) ** 2))
-        if abs(want_fq - float(fqj[1])) > 1e-9 * (1 + abs(want_fq)):
+        gy = flat(f0.grad(y))
+        dzy = flat(z) - flat(y)                     # ALL entries, whatever the shape of the iterate
+        want_fq = float(f0(y)) + float(np.sum(np.real(np.conj(gy) * dzy))) + 0.5 * Lj * float(np.sum(np.abs(dzy) ** 2))
+        own.append((float(f0(z)), want_fq))
+        if not abs(want_fq - float(fqj[1])) <= 1e-9 * (1 + abs(want_fq)):
             V(unit, "f_quad_approx differs from f(y) + Re<grad f(y), z-y> + L/2 |z-y|^2", info,
-              expected=want_fq, observed=float(fqj[1]))
-        want_z = np.asarray(g0.prox(y - (1.0 / Lj) * f0.grad(y), 1.0 / Lj))
-        if np.max(np.abs(want_z - zn)) > 1e-9 * (1 + np.max(np.abs(want_z))):
+              expected=want_fq, observed=float(fqj[1]), oracle="documented quadratic model, sum over all entries")
+        want_z = flat(g0.prox(y - (1.0 / Lj) * f0.grad(y), 1.0 / Lj))
+        if not np.max(np.abs(want_z - flat(z))) <= 1e-9 * (1 + np.max(np.abs(want_z))):
             V(unit, "candidate is not prox_{g/L}(y - grad f(y)/L)", info)
-        if abs(float(f0(z)) - float(fzj)) > 1e-12 * (1 + abs(float(fzj))):
+        if not abs(float(f0(z)) - float(fzj)) <= 1e-12 * (1 + abs(float(fzj))):
             V(unit, "f value used in the test is not f(candidate)", info)
+    # the L returned must be the FIRST of the sequence that passes the documented test: no candidate
+    # before the last may pass it, and an accepted last candidate must pass it (ties by rounding skipped)
+    for j, (fzo, fqo) in enumerate(own):
+        margin = 1e-9 * (1 + abs(fzo) + abs(fqo))
+        if abs(fzo - fqo) <= margin:
+            continue
+        passes = fzo <= fqo
+        last = j == len(own) - 1
+        if passes and not (last and accepted):
+            V(unit, "an L that passes the documented test f(z) <= fhat_L(z, y) was rejected", dict(info, trial=j, L_trial=tab[j][0]),
+              expected=tab[j][0], observed=L, oracle="harness evaluation of the documented quadratic model")
+            break
+        if (not passes) and last and accepted:
+            V(unit, "the accepted L does not pass the documented test f(z) <= fhat_L(z, y)", dict(info, trial=j),
+              expected="f(z) <= fhat", observed=[fzo, fqo])
     # -- the property: first accepted L; on exhaustion the last value tried
     if info["exhausted"] and not abs(L - tab[-1][0]) <= 1e-12 * abs(L):
         V(unit, "budget exhausted: returned L is not the last value tried", info,
@@ -571,8 +659,8 @@ def check_call(ctx, spec, c, s, items, report=True):
     else:
         items["rls"].append((rls_item(pol, c, tab, tol), (unit, "update differs from the model", info)))
         # Z handed back, Tk, Zrb against the documented recursions (numpy, tolerance)
-        x, Zrb, Tk = np.asarray(c["x"]), np.asarray(c["Zrb"] if c["Zrb"] is not None else c["x"]), float(c["Tk"])
-        Z = np.asarray(c["Z"])
+        x, Zrb, Tk = c["x"], (c["Zrb"] if c["Zrb"] is not None else c["x"]), float(c["Tk"])
+        Z = c["Z"]
         if c["Z"] is not trials[-1][2]:
             V(unit, "Z is not the last candidate computed", info)
 
@@ -582,18 +670,17 @@ def check_call(ctx, spec, c, s, items, report=True):
             y = (Tk * x + t * Zrb) / T
             return t, T, y
         t, T, y = aux(L)
-        zL = np.asarray(g0.prox(y - (1.0 / L) * f0.grad(y), 1.0 / L))
+        zL = flat(g0.prox(y - (1.0 / L) * f0.grad(y), 1.0 / L))
         scale = 1 + float(np.max(np.abs(zL)))
-        if float(np.max(np.abs(zL - Z))) > 1e-9 * scale:
+        if not float(np.max(np.abs(zL - flat(Z)))) <= 1e-9 * scale:
             V(unit, "Z handed back is not the update computed with the returned L", info,
-              expected=zL.tolist() if not np.iscomplexobj(zL) else str(zL.tolist()),
-              observed=Z.tolist() if not np.iscomplexobj(Z) else str(Z.tolist()),
+              expected=str(zL.tolist()), observed=str(flat(Z).tolist()),
               oracle="x_step(y(L), L) with y, t, T from the returned L")
         else:
-            if abs(float(c["Tkn"]) - T) > 1e-9 * (1 + abs(T)):
+            if not abs(float(c["Tkn"]) - T) <= 1e-9 * (1 + abs(T)):
                 V(unit, "Tk is not Tk + t(L) for the returned L", info, expected=T, observed=float(c["Tkn"]))
-            wantZrb = Zrb + t * L * (Z - y)
-            if float(np.max(np.abs(wantZrb - np.asarray(c["Zrbn"])))) > 1e-9 * (1 + float(np.max(np.abs(wantZrb)))):
+            wantZrb = flat(Zrb) + t * L * (flat(Z) - flat(y))
+            if not float(np.max(np.abs(wantZrb - flat(c["Zrbn"])))) <= 1e-9 * (1 + float(np.max(np.abs(wantZrb)))):
                 V(unit, "Zrb is not Zrb + t L (z - y) for the returned L", info)
         if accel and not (c["x_new"] is c["Z"]):
             V("AcceleratedPGM.step", "new x is not the policy's Z", info)
@@ -630,9 +717,9 @@ def check_traj(ctx, spec, items, report=True):
             if not (kind == "rls" and spec["cls"] == "APGM") and math.isfinite(float(c["L"])) and float(c["L"]) != 0:
                 base = c["v_old"] if spec["cls"] == "APGM" else c["x_old"]
                 Lf = float(c["L"])
-                want = np.asarray(s.g.prox(base - (1.0 / Lf) * s.f._f.grad(base), 1.0 / Lf))
-                got = np.asarray(c["x_new"])
-                if np.all(np.isfinite(want)) and float(np.max(np.abs(want - got))) > 1e-9 * (1 + float(np.max(np.abs(want)))):
+                want = flat(s.g.prox(base - (1.0 / Lf) * s.f._f.grad(base), 1.0 / Lf))
+                got = flat(c["x_new"])
+                if np.all(np.isfinite(want)) and not float(np.max(np.abs(want - got))) <= 1e-9 * (1 + float(np.max(np.abs(want)))):
                     viol.append(("step", "new x is not the proximal gradient update with the returned L"))
                     if report:
                         ctx.violation("PGM.step", "new x is not the proximal gradient update with the returned L",
@@ -789,7 +876,8 @@ def run(ctx: Ctx):
                         "gamma_u > 0, gamma_d > 0 for positivity of the line-search results"]
     items = {"bb": [], "abb": [], "ls": [], "rls": [], "arg": []}
     steps = ctx.n(6, 10)
-    specs = fixed_specs(steps) + [gen_spec(ctx.rng, ctx.rng.randint(3, steps)) for _ in range(ctx.n(15, 600))]
+    specs = fixed_specs(steps) + shaped_specs(ctx.n(3, 6)) + \
+        [gen_spec(ctx.rng, ctx.rng.randint(3, steps)) for _ in range(ctx.n(10, 600))]
     for spec in specs:
         check_traj(ctx, spec, items)
     dspecs = fixed_direct() + [gen_direct(ctx.rng) for _ in range(ctx.n(100, 2000))]
